@@ -45,6 +45,87 @@ def rules(ctx):
     c196(ctx)
     c197(ctx)
     c198(ctx)
+    c199(ctx)
+
+
+def c199(ctx):
+    R = "C19.9"
+    ctx.declare(R, "suffix-array construction names the sorted LMS substrings: a substring gets a new name only because it is the first one or because a "
+                   "comparison between it and its predecessor (symbols, types, lengths) found a difference -- equal substrings that are named apart "
+                   "keep the arbitrary order the first induced pass left them in, and the recursion never sorts them")
+    f = ctx.fn(R, "scrunch::sais::sais_impl")
+    if not f:
+        return
+    MAXV = (1 << 64) - 1
+
+    def cmp_ok(rv):
+        """a comparison that can justify `differs`: the sentinel test, or one with no constant operand"""
+        if rv.get("r") != "bin" or rv["op"] not in ("Eq", "Ne", "Lt", "Le", "Gt", "Ge"):
+            return None
+        def const_of(o):
+            """the constant an operand *is* (directly, or through an unnamed temporary assigned once) -- not a variable that merely started out as one"""
+            seen = 0
+            while o.get("k") in ("copy", "move") and not o["pl"]["p"] and not f.local_name(o["pl"]["l"]) and seen < 4:
+                ds = [st for b in f.blocks for st in b.st if st["s"] == "=" and st["lhs"]["l"] == o["pl"]["l"] and not st["lhs"]["p"]]
+                if len(ds) != 1 or ds[0]["rv"].get("r") not in ("use", "cast"):
+                    return None
+                o = ds[0]["rv"]["a"]
+                seen += 1
+            return o["c"] if o.get("k") == "const" else None
+        consts = [c for c in (const_of(rv["a"]), const_of(rv["b"])) if c is not None]
+        if not consts:
+            return True
+        return rv["op"] in ("Eq", "Ne") and all(x.get("v") == MAXV or "MAX" in str(x.get("named", "")) for x in consts)
+    flags = []
+    for l, ty in enumerate(f.locals):
+        if ty != "bool" or not f.local_name(l):
+            continue
+        asg = [(b.idx, i) for b in f.blocks for i, st in enumerate(b.st) if st["s"] == "=" and st["lhs"]["l"] == l and not st["lhs"]["p"]]
+        trues = [p_ for p_ in asg if f.blocks[p_[0]].st[p_[1]]["rv"].get("r") == "use" and f.blocks[p_[0]].st[p_[1]]["rv"]["a"].get("k") == "const"
+                 and f.blocks[p_[0]].st[p_[1]]["rv"]["a"]["c"].get("v") == 1]
+        in_loop = [p_ for p_ in trues if P.reach(f, P.after(f, p_), [p_]) is not None]
+        # the flag decides whether the name counter advances
+        adv = False
+        for b in P.switch_blocks(f):
+            d = b.term.get("discr") or {}
+            if any(x["k"] == "local" and x.get("l") == l for x in P.origins(f, d)) or (d.get("pl") or {}).get("l") == l or \
+                    any(st["s"] == "=" and st["lhs"]["l"] == (d.get("pl") or {}).get("l") and st["rv"].get("r") == "use" and (st["rv"]["a"].get("pl") or {}).get("l") == l for st in b.st):
+                adv = True
+        if in_loop and adv:
+            flags.append((l, asg))
+    ctx.floor(R, "sais_impl: `differs from its predecessor` flags", len(flags), 1)
+    for l, asg in flags:
+        for p_ in asg:
+            rv = f.blocks[p_[0]].st[p_[1]]["rv"]
+            if rv.get("r") == "bin":
+                ok = cmp_ok(rv) is True
+                why = "assigned from a comparison with a constant that is not the first-element sentinel"
+            elif rv.get("r") == "use" and rv["a"].get("k") == "const":
+                if rv["a"]["c"].get("v") != 1:
+                    continue
+                gs = K.guards(f, p_)
+                ok, why = False, "set without an enclosing comparison"
+                # innermost guards first; stop at the first one that carries a comparison
+                for bb, lab, srcs in reversed(gs):
+                    bins = [x for x in srcs if x["k"] == "bin" and x["op"] in ("Eq", "Ne", "Lt", "Le", "Gt", "Ge")]
+                    calls = [x for x in srcs if x["k"] == "call" and re.search(r"::(ne|eq)$", x["callee"])]
+                    if not bins and not calls:
+                        if any(x["k"] == "call" and re.search(r"Iterator>?::next$|range::next$", x["callee"]) for x in srcs):
+                            break       # reached the enclosing loop head
+                        continue
+                    bad = [x for x in bins if cmp_ok(x["st"]["rv"]) is not True]
+                    ok = not bad
+                    why = "set under a comparison with a constant (line %d)" % bad[0]["st"]["sp"][1] if bad else ""
+                    break
+            else:
+                srcs = P.origins(f, rv.get("a")) if rv.get("r") == "use" else []
+                bins = [x for x in srcs if x["k"] == "bin"]
+                ok = bool(bins) and all(cmp_ok(x["st"]["rv"]) is True for x in bins)
+                why = "copied from a value that is not a comparison between the two substrings"
+            ctx.check(R, f, "named-apart-only-if-different", ok, "the flag is raised by the first-element test or by a comparison between the two substrings",
+                      "sais_impl gives an LMS substring a name of its own without having found a difference from its predecessor (%s): equal substrings "
+                      "named apart are never ordered by the recursion, and the suffix array -- hence locate / search -- is wrong for texts that repeat "
+                      "such a substring" % why, pt=p_)
 
 
 def builder_params(f):
